@@ -1,0 +1,12 @@
+//go:build verif
+
+// Hooks for the deterministic-simulation checks in /verif (build tag verif).
+// Add-only: with the tag off this file does not exist for the compiler.
+
+package mux
+
+// VerifReset clears process-global state between simulated runs.
+func VerifReset() {
+	nWorker.Store(0)
+	nextServerConn.Store(0)
+}
